@@ -231,6 +231,7 @@ impl Property for C14 {
             replicate: ctx.ch.chance(2, 3),
             crash: ctx.ch.chance(2, 3),
             ops: ctx.ch.chance(3, 4),
+            damaged_sync: ctx.ch.chance(1, 3),
             verifiable: ctx.ch.chance(1, 3),
             requests_per_client: 1 + ctx.ch.index(4),
             inputs: inputs(ctx),
@@ -302,6 +303,7 @@ impl Property for C12 {
             replicate: ctx.ch.chance(1, 3),
             crash: false,
             ops: false,
+            damaged_sync: false,
             verifiable: ctx.ch.chance(1, 2) && !long,
             requests_per_client: if long { 6 + ctx.ch.index(4) } else { 2 + ctx.ch.index(4) },
             inputs: inputs(ctx),
